@@ -30,16 +30,16 @@ import (
 func main() { hk.Main("C13", runC13, nil) }
 
 func runC13(r *hk.Run) {
-	r.Header = "From ReqV Require Import Model.C13Run."
+	r.Header = "From ReqV Require Import Model.C13Run.\nFrom Coq Require Import Uint63."
 	r.CaseType = "c13_case"
 	r.CheckFn = "c13_check"
-	r.ShardSize = 60
+	r.ShardSize = 50
 	r.Rule = "line cases: streams of lines whose lengths straddle the bufio size (n-2..n+2, CR at the edge, bare LF, no final newline) x buffer sizes {16,17,32,64,4096} x readLine variant; non-trivial = some line is longer than the buffer or the stream does not end in a newline. Exchange pairs (dump off / dump on): protocol x option subsets x writer routing x sync/async x level x exchange shape (body framing and size, long / many headers, small read buffers, gzip, charset, 1xx, redirects, retries, truncated bodies); non-trivial = at least one part is on and the exchange has a body or a header line longer than the read buffer or more than one round trip. Distinct by canonical input."
 	rng := hk.NewRand(r.Seed)
-	lineCases(r, rng, r.Scale(900, 20000))
-	h1Pairs(r, rng, r.Scale(260, 4000))
-	h2Pairs(r, rng, r.Scale(110, 2000))
-	h3Pairs(r, rng, r.Scale(70, 1200))
+	lineCases(r, rng, r.Scale(350, 12000))
+	h1Pairs(r, rng, r.Scale(300, 6000))
+	h2Pairs(r, rng, r.Scale(130, 2500))
+	h3Pairs(r, rng, r.Scale(100, 1500))
 }
 
 // ---------- (a) line cases ----------
@@ -84,14 +84,35 @@ func genStream(rng *hk.Rand, n int) []byte {
 		if l < 0 {
 			l = 0
 		}
-		for j := 0; j < l; j++ {
-			switch rng.Intn(40) {
-			case 0:
-				b = append(b, '\r')
-			case 1:
-				b = append(b, ' ')
-			default:
-				b = append(b, byte('a'+rng.Intn(26)))
+		if l > 200 {
+			// long lines (big buffer): a 32-byte pattern so that case files stay small (see cb),
+			// with a few CRs at random places and, often, right at a buffer edge
+			start := len(b)
+			var pat [32]byte
+			for j := range pat {
+				pat[j] = byte('a' + rng.Intn(26))
+			}
+			for j := 0; j < l; j++ {
+				b = append(b, pat[j%32])
+			}
+			for k := rng.Intn(3); k > 0; k-- {
+				b[start+rng.Intn(l)] = '\r'
+			}
+			if rng.Chance(50) {
+				if e := (start/n+1)*n - 1 - rng.Intn(2); e >= start && e < len(b) {
+					b[e] = '\r'
+				}
+			}
+		} else {
+			for j := 0; j < l; j++ {
+				switch rng.Intn(40) {
+				case 0:
+					b = append(b, '\r')
+				case 1:
+					b = append(b, ' ')
+				default:
+					b = append(b, byte('a'+rng.Intn(26)))
+				}
 			}
 		}
 		switch rng.Intn(8) {
@@ -168,10 +189,14 @@ func lineCases(r *hk.Run, rng *hk.Rand, count int) {
 			dump []byte
 		}{{false, plain, nil}, {true, dumped, sink.b.Bytes()}} {
 			var obs []string
+			pl := &pool{}
 			for _, l := range variant.rs {
-				obs = append(obs, "("+cb(l.Line)+", "+hk.CoqBool(l.IsPrefix)+", "+errClassLine(l.Err)+")")
+				pl.add(l.Line)
 			}
-			r.Add(hk.Case{Coq: fmt.Sprintf("LineCase %s %s %s %s %s %s", hk.CoqBool(variant.on), hk.CoqNat(n), cb(in), hk.CoqNat(max), hk.CoqList(obs), cb(variant.dump)),
+			for _, l := range variant.rs {
+				obs = append(obs, "("+pl.enc(l.Line)+", "+hk.CoqBool(l.IsPrefix)+", "+errClassLine(l.Err)+")")
+			}
+			r.Add(hk.Case{Coq: pl.wrap(fmt.Sprintf("LineCase %s %s %s %s %s %s", hk.CoqBool(variant.on), hk.CoqNat(n), pl.enc(in), hk.CoqNat(max), hk.CoqList(obs), pl.enc(variant.dump))),
 				Desc: map[string]interface{}{"kind": "line", "dump": variant.on, "bufsize": n, "stream": string(in)}},
 				fmt.Sprintf("l|%v|%d|%x", variant.on, n, in), long || (len(in) > 0 && in[len(in)-1] != '\n'))
 		}
@@ -409,15 +434,16 @@ func coqOptOpt(o *optSpec, level int) string {
 
 // partsObs: what one exchange transmitted, by part, as observed at the origin / by the caller.
 type partsObs struct {
-	ReqHeader  []byte
-	HasReqBody bool
-	ReqBody    []byte
-	ReqBodySep []byte // separator on Output after a request body (h1 CRLF, h2/h3 CRLF CRLF)
-	ReqBodyEnd []byte // h1 chunked: the final CRLF, written through the body writer
-	RespHeader []byte
-	RespBody   []byte
-	RespEOF    bool // the body reader reported io.EOF (CRLF separator on Output)
-	NoResp     bool // no response body reader was handed to the caller
+	ReqHeader     []byte
+	HasReqBody    bool
+	ReqBody       []byte
+	ReqBodySep    []byte // separator on Output after a request body (h1 CRLF, h2/h3 CRLF CRLF)
+	ReqBodyEnd    []byte // h1 chunked: the final CRLF, written through the body writer
+	RespHeaderPre []byte // interim header blocks read before the request body is written (Expect: 100-continue)
+	RespHeader    []byte
+	RespBody      []byte
+	RespEOF       bool // the body reader reported io.EOF (CRLF separator on Output)
+	NoResp        bool // no response body reader was handed to the caller
 }
 
 func expectedContents(cfg dumpCfg, xs []partsObs) map[[2]int][]byte {
@@ -435,6 +461,9 @@ func expectedContents(cfg dumpCfg, xs []partsObs) map[[2]int][]byte {
 			}
 			if o.On[0] {
 				add(level, o.route(level, 0), x.ReqHeader)
+			}
+			if o.On[2] {
+				add(level, o.route(level, 2), x.RespHeaderPre)
 			}
 			if o.On[1] && x.HasReqBody {
 				add(level, o.route(level, 1), x.ReqBody)
@@ -525,27 +554,27 @@ func failOnce(r *hk.Run, f hk.Failure) {
 }
 
 // cb renders a byte string as a Coq term.  Long periodic runs (bulk bodies are generated with
-// period 1, 4 or 32) become (brep k pattern) and long literals are split, so that case files stay
+// a small period) become (brep k pattern) and long literals are split, so that case files stay
 // small and no single literal is deep enough to overflow coqc's stack.
 func cb(b []byte) string {
 	if len(b) <= 600 {
-		return hk.CoqBytes(b)
+		return lit1(b)
 	}
 	var ps []string
 	lit := func(x []byte) {
 		for len(x) > 0 {
-			n := 1000
+			n := 1001
 			if n > len(x) {
 				n = len(x)
 			}
-			ps = append(ps, hk.CoqBytes(x[:n]))
+			ps = append(ps, lit1(x[:n]))
 			x = x[n:]
 		}
 	}
 	i, litStart := 0, 0
 	for i < len(b) {
 		best, bestP := 0, 0
-		for _, p := range []int{1, 4, 32} {
+		for _, p := range []int{1, 2, 3, 4, 6, 8, 12, 16, 32, 64} {
 			if i+p > len(b) {
 				continue
 			}
@@ -560,7 +589,7 @@ func cb(b []byte) string {
 		}
 		if best >= 512 {
 			lit(b[litStart:i])
-			ps = append(ps, fmt.Sprintf("(brep %d %s)", best/bestP, hk.CoqBytes(b[i:i+bestP])))
+			ps = append(ps, fmt.Sprintf("(brep %d %s)", best/bestP, lit1(b[i:i+bestP])))
 			i += best
 			litStart = i
 		} else {
@@ -579,7 +608,7 @@ func keyOf(v interface{}) string {
 	return string(b)
 }
 
-func coqObs(m map[[2]int][]byte) string {
+func coqObs(m map[[2]int][]byte, pl *pool) string {
 	var ks [][2]int
 	for k := range m {
 		ks = append(ks, k)
@@ -587,7 +616,117 @@ func coqObs(m map[[2]int][]byte) string {
 	sort.Slice(ks, func(i, j int) bool { return ks[i][0]*100+ks[i][1] < ks[j][0]*100+ks[j][1] })
 	var o []string
 	for _, k := range ks {
-		o = append(o, fmt.Sprintf("(%d, %d%%N, %s)", k[0], k[1], cb(m[k])))
+		o = append(o, fmt.Sprintf("(%d, %d%%N, %s)", k[0], k[1], pl.enc(m[k])))
 	}
 	return hk.CoqList(o)
+}
+
+// pool: per-case dictionary of byte strings that occur several times in one case (the header
+// block is part of the wire capture and of every dumper's content, ...).  The case is emitted as
+//
+//	(let p0 := <literal> in let p1 := ... in <case using p0, p1 and literals>)
+//
+// so that every long byte string is parsed by Coq once.  enc is a lossless encoding of the
+// OBSERVED bytes (greedy longest dictionary match at each position, literals in between); it is
+// decoded again in Go before it is emitted (encOK) so that a bug here cannot hide a difference.
+type pool struct {
+	data [][]byte
+}
+
+func (p *pool) add(b []byte) {
+	if len(b) < 24 {
+		return
+	}
+	for _, d := range p.data {
+		if bytes.Equal(d, b) {
+			return
+		}
+	}
+	p.data = append(p.data, append([]byte(nil), b...))
+	// longest first: greedy matching prefers the longest entry
+	sort.SliceStable(p.data, func(i, j int) bool { return len(p.data[i]) > len(p.data[j]) })
+}
+
+func (p *pool) enc(b []byte) string {
+	if p == nil || len(p.data) == 0 {
+		return cb(b)
+	}
+	var parts []string
+	var check []byte
+	lit := 0
+	flush := func(i int) {
+		if i > lit {
+			parts = append(parts, cb(b[lit:i]))
+			check = append(check, b[lit:i]...)
+		}
+	}
+	first := map[byte]bool{}
+	for _, d := range p.data {
+		first[d[0]] = true
+	}
+	for i := 0; i < len(b); {
+		m := -1
+		if first[b[i]] {
+			for k, d := range p.data {
+				if len(d) <= len(b)-i && bytes.Equal(b[i:i+len(d)], d) {
+					m = k
+					break
+				}
+			}
+		}
+		if m < 0 {
+			i++
+			continue
+		}
+		flush(i)
+		parts = append(parts, fmt.Sprintf("p%d", m))
+		check = append(check, p.data[m]...)
+		i += len(p.data[m])
+		lit = i
+	}
+	flush(len(b))
+	if !bytes.Equal(check, b) {
+		return cb(b) // cannot happen; never emit something that is not the observation
+	}
+	switch len(parts) {
+	case 0:
+		return "[]"
+	case 1:
+		return parts[0]
+	}
+	return "(concat " + hk.CoqList(parts) + ")"
+}
+
+// wrap puts the let-bindings around a case term
+func (p *pool) wrap(term string) string {
+	if p == nil || len(p.data) == 0 {
+		return term
+	}
+	var sb strings.Builder
+	sb.WriteString("(")
+	for k, d := range p.data {
+		fmt.Fprintf(&sb, "let p%d := %s in ", k, cb(d))
+	}
+	sb.WriteString(term + ")")
+	return sb.String()
+}
+
+// lit1: one literal.  Short ones as hex strings (hx), longer ones packed 7 bytes per primitive
+// integer (pk, Model/C13Run.v), which Coq parses about seven times faster.
+func lit1(b []byte) string {
+	if len(b) < 16 {
+		return hk.CoqBytes(b)
+	}
+	var ws []string
+	for i := 0; i < len(b); i += 7 {
+		var w uint64
+		for j := 0; j < 7; j++ {
+			w <<= 8
+			if i+j < len(b) {
+				w |= uint64(b[i+j])
+			}
+		}
+		ws = append(ws, fmt.Sprintf("0x%x", w))
+	}
+	return fmt.Sprintf("(pk %d [%s]%%uint63)", len(b), strings.Join(ws, "; "))
 }
